@@ -266,6 +266,22 @@ def analyse(prog: Program, L: Ledger, ci: ClassInfo, f: FuncInfo, deltas: list[i
                 strain_exprs.append(st.value)
                 continue
             body2.append(st)
+        # locals that only feed the strain tensor (a `strain = inv(h0.T) @ …; strain -= 1; strain *= 0.5` built up before it is
+        # stored) are not part of the acceptance formula either: they go with it (the strain itself is checked separately)
+        feeding = {n_.id for e_ in strain_exprs for n_ in ast.walk(e_) if isinstance(n_, ast.Name)}
+        changed_ = True
+        while changed_ and feeding:
+            changed_ = False
+            for nm_ in list(feeding):
+                defs_ = [st_ for st_ in body2 if isinstance(st_, (ast.Assign, ast.AugAssign, ast.AnnAssign))
+                         and any(isinstance(t_, ast.Name) and t_.id == nm_ for t_ in (st_.targets if isinstance(st_, ast.Assign) else [st_.target]))]
+                others_ = [st_ for st_ in body2 if st_ not in defs_ and any(isinstance(n_, ast.Name) and n_.id == nm_ and isinstance(n_.ctx, ast.Load) for n_ in ast.walk(st_))]
+                if defs_ and not others_:
+                    for d_ in defs_:
+                        feeding |= {n_.id for n_ in ast.walk(d_) if isinstance(n_, ast.Name) and isinstance(n_.ctx, ast.Load)}
+                        body2.remove(d_)
+                    feeding.discard(nm_)
+                    changed_ = True
         try:
             r = t.run_block(body2)
         except Unsupported as exc:
